@@ -56,6 +56,10 @@ def replay_state(st, high=False):
     dreye = import_dreye()
     from dreye.api.optimize.lsq_linear import lsq_linear
     s, w, fits = st["sys"], st["w"], st["fits"]
+    if not fits:
+        return []
+    if all(v == 0 for v in w):
+        return replay_inverse(st)
     A, lb, ub, K, bl = dsys.floats(s)
     B = np.array([dsys.b_float(s, f["b"]) for f in fits])
     where0 = dict(fam=st["fam"], **dsys.sys_where(s))
@@ -80,6 +84,15 @@ def replay_state(st, high=False):
                     bad += check_fit(s, w, [f], res[0], res[1], acc, "ReceptorEstimator.fit", where0)
                 except Exception as ex2:
                     bad.append(("C04.no-error", dict(op="ReceptorEstimator.fit", acc=acc, exc=type(ex2).__name__, below=f["below"], zero=f["zero"], **where0), None, repr(ex2)[:200], f))
+    # a single target passed as a 1-D vector: same answer as the corresponding row of the batch
+    try:
+        k0 = next((k for k, f in enumerate(fits) if not f["below"]), 0)
+        est = dsys.make_estimator(dreye, s)
+        est.w = est.W = np.asarray(w, float)
+        r1 = est.fit(B[k0].copy())
+        bad += check_fit(s, w, [fits[k0]], np.atleast_2d(r1[0]), np.atleast_2d(r1[1]), "default", "ReceptorEstimator.fit(1-D)", where0)
+    except Exception as ex:
+        bad.append(("C04.no-error", dict(op="ReceptorEstimator.fit(1-D)", acc="default", exc=type(ex).__name__, below=False, **where0), None, repr(ex)[:200], None))
     # functional API with per-sample weights (same weights in every row here; mixed rows are exercised by C05)
     try:
         Kf = None if K is None else np.atleast_1d(K)
@@ -89,6 +102,25 @@ def replay_state(st, high=False):
         bad += check_fit(s, w, [fits[k] for k in rows], X, Bp, "default", "lsq_linear", where0)
     except Exception as ex:
         bad.append(("C04.no-error", dict(op="lsq_linear", acc="default", exc=type(ex).__name__, below=False, **where0), None, repr(ex)[:200], None))
+    return bad
+
+
+def replay_inverse(st):
+    """W="inverse": the documented string option of the functional API (weights 1/B per sample and receptor)"""
+    import_dreye()
+    from dreye.api.optimize.lsq_linear import lsq_linear
+    s, fits = st["sys"], st["fits"]
+    A, lb, ub, K, bl = dsys.floats(s)
+    B = np.array([dsys.b_float(s, f["b"]) for f in fits])
+    where0 = dict(fam=st["fam"], winv=True, **dsys.sys_where(s))
+    bad = []
+    try:
+        Kf = None if K is None else np.atleast_1d(K)
+        X, Bp = lsq_linear(A, B, lb=lb, ub=ub, W="inverse", K=Kf, baseline=bl, return_pred=True)
+        for k, f in enumerate(fits):
+            bad += check_fit(s, f["w"], [f], np.asarray(X)[k:k + 1], np.asarray(Bp)[k:k + 1], "default", "lsq_linear(W=inverse)", where0)
+    except Exception as ex:
+        bad.append(("C04.no-error", dict(op="lsq_linear(W=inverse)", acc="default", exc=type(ex).__name__, below=False, **where0), None, repr(ex)[:200], None))
     return bad
 
 
